@@ -105,9 +105,16 @@ func (rr *reqRun) script(a *fakecql.Attempt) fakecql.Outcome {
 		// the node falls silent (this request and every heartbeat stay unanswered): the proxy itself gives the
 		// connection up when the idle timeout passes
 		ip := a.Node.IP
+		cn := a.Conn
 		go func() {
 			rr.e.C.Mute(ip, true)
-			time.Sleep(900 * time.Millisecond)
+			// silent until the proxy has given this connection up (a loaded machine may take much longer than the idle
+			// timeout to notice), at most 6 s
+			deadline := time.Now().Add(6 * time.Second)
+			for time.Now().Before(deadline) && !cn.Closed() {
+				time.Sleep(20 * time.Millisecond)
+			}
+			time.Sleep(100 * time.Millisecond)
 			rr.e.C.Mute(ip, false)
 		}()
 		return fakecql.Outcome{Kind: fakecql.Silent}
